@@ -437,12 +437,46 @@ fn token_bounds(tree: &Tree) -> Vec<usize> {
     }
 }
 
+/// Behavioural detection of the gate variant (no source anchor): the distinguishing input of
+/// finding C01-column-token-range-change — fx_depends_on_column, text " x" parsed whole, then the
+/// included ranges become [1,2).  A runtime WITH the repair refuses the old column-dependent token
+/// (incremental == scratch == even_column); without it the old odd_column token is reused.
+fn probe_gate_variant() -> u8 {
+    let b = match zoo::load("fx_depends_on_column") {
+        Ok(b) => b,
+        Err(_) => return 0,
+    };
+    let text = b" x";
+    let mut p = Parser::new();
+    p.set_language(&b.language).unwrap();
+    let old = match p.parse(text, None) {
+        Some(t) => t,
+        None => return 0,
+    };
+    let r = [Range { start_byte: 1, end_byte: 2, start_point: Point { row: 0, column: 1 }, end_point: Point { row: 0, column: 2 } }];
+    if p.set_included_ranges(&r).is_err() {
+        return 0;
+    }
+    let incr = p.parse(text, Some(&old));
+    let mut q = Parser::new();
+    q.set_language(&b.language).unwrap();
+    q.set_included_ranges(&r).unwrap();
+    let scratch = q.parse(text, None);
+    match (incr, scratch) {
+        (Some(a), Some(b)) if a.root_node().to_sexp() == b.root_node().to_sexp() => 1,
+        _ => 0,
+    }
+}
+
 fn main() {
     limit_resources();
     let args: Vec<String> = std::env::args().collect();
     let out_path = args.get(1).expect("usage: c01 <ops-file> <langs-file> [--spec file] [lang...]").clone();
     let langs_path = args.get(2).expect("langs file").clone();
+    let variant = probe_gate_variant();
     let mut em = Emit { current: format!("{out_path}.current"), out: std::io::BufWriter::with_capacity(1 << 20, std::fs::File::create(&out_path).unwrap()), langs_seen: BTreeMap::new(), cases: 0 };
+    writeln!(em.out, "variant colfix {variant}").unwrap();
+    eprintln!("c01: gate variant probed behaviourally: colfix={variant}");
     let mut built: BTreeMap<String, zoo::Built> = BTreeMap::new();
     let mut get = |id: &str, built: &mut BTreeMap<String, zoo::Built>| -> bool {
         if !built.contains_key(id) {
